@@ -8,7 +8,7 @@ from typing import Sequence, List, Optional, Type, Tuple, TYPE_CHECKING
 import sys
 import functools
 from pathlib import Path
-from argparse import SUPPRESS, Namespace
+from argparse import SUPPRESS, ArgumentTypeError, Namespace
 
 from configargparse import ArgumentParser
 import attr
@@ -16,7 +16,7 @@ import attr
 from pydoctor import __version__
 from pydoctor.themes import get_themes
 from pydoctor.epydoc.markup import get_supported_docformats
-from pydoctor.sphinx import MAX_AGE_HELP, USER_INTERSPHINX_CACHE
+from pydoctor.sphinx import MAX_AGE_HELP, USER_INTERSPHINX_CACHE, InvalidMaxAge, parseMaxAge
 from pydoctor.utils import parse_path, findClassFromDottedName, parse_privacy_tuple, error
 from pydoctor._configparser import CompositeConfigParser, IniConfigParser, TomlConfigParser, ValidatorParser
 
@@ -42,6 +42,18 @@ PydoctorConfigParser = CompositeConfigParser(
                  IniConfigParser(CONFIG_SECTIONS, split_ml_text_to_list=True)])
 
 # ARGUMENTS PARSING
+
+def _max_age(s: str) -> str:
+    """
+    Check the value of C{--intersphinx-cache-max-age} while the options are parsed, 
+    so that a typo is reported as an option error (command line or config file alike) 
+    instead of a traceback when the cache is prepared.
+    """
+    try:
+        parseMaxAge(s)
+    except InvalidMaxAge as e:
+        raise ArgumentTypeError(str(e)) from e
+    return s
 
 def get_parser() -> ArgumentParser:
     parser = ArgumentParser(
@@ -213,6 +225,7 @@ def get_parser() -> ArgumentParser:
         '--intersphinx-cache-max-age',
         dest='intersphinx_cache_max_age',
         default='1d',
+        type=_max_age,
         help=MAX_AGE_HELP,
         metavar='DURATION',
     )
